@@ -292,9 +292,9 @@ def plan(ctx):
                 if base in ('busy', 'connecting') or not q:
                     fams.append(('fb', fam_fb))
                     fams.append(('s3b', fam_s3b))
-                if (base == 'busy' and (not q or (profile, mode) == ('pubsub', 'sync'))):
+                if not q or (base == 'busy' and (profile, mode) == ('pubsub', 'sync')):
                     fams.append(('s4', fam_s4))
-                if not q and base == 'busy' and profile == 'pubsub' and mode == 'async':
+                if not q and base == 'busy':
                     fams.append(('s5', fam_s5))
                 for fname, fam in fams:
                     for i in range(0, len(fam), 4000):
